@@ -197,6 +197,7 @@ type perm struct {
 
 type ixn struct {
 	src, peer string
+	dstWild   bool   // the intention names the wildcard destination (it applies to this destination too, at lower precedence)
 	action    string // allow | deny | l7
 	perms     []perm
 }
@@ -214,6 +215,9 @@ func (i ixn) String() string {
 		}
 		a = "l7[" + strings.Join(ls, ",") + "]"
 	}
+	if i.dstWild {
+		p += "->*"
+	}
 	return i.src + p + ":" + a
 }
 
@@ -227,7 +231,18 @@ func refAllows(set []ixn, q *request, dflt bool, isHTTP bool) bool {
 		if i.peer != q.peer || (i.src != "*" && i.src != q.name) {
 			continue
 		}
-		if best == nil || (best.src == "*" && i.src != "*") {
+		// destination specificity before source specificity
+		rank := func(x *ixn) int {
+			r := 0
+			if !x.dstWild {
+				r += 2
+			}
+			if x.src != "*" {
+				r++
+			}
+			return r
+		}
+		if best == nil || rank(i) > rank(best) {
 			best = i
 		}
 	}
@@ -328,6 +343,9 @@ func toIntentions(set []ixn) structs.SimplifiedIntentions {
 	for _, i := range set {
 		x := &structs.Intention{SourceNS: "default", SourceName: i.src, SourcePeer: i.peer, DestinationNS: "default", DestinationName: "dest",
 			SourcePartition: "default", DestinationPartition: "default", SourceType: structs.IntentionSourceConsul}
+		if i.dstWild {
+			x.DestinationName = "*"
+		}
 		switch i.action {
 		case "allow":
 			x.Action = structs.IntentionActionAllow
@@ -350,8 +368,13 @@ func Run(c *ev.Ctx) {
 	quick := c.Quick()
 	pm := permMenu()
 	// source tuples
-	type st struct{ src, peer string }
-	tuples := []st{{"web.v1", ""}, {"a+b", ""}, {"*", ""}, {"web.v1", "p1"}, {"other", "p1"}}
+	type st struct {
+		src, peer string
+		dstWild   bool
+	}
+	tuples := []st{{"web.v1", "", false}, {"a+b", "", false}, {"*", "", false}, {"web.v1", "p1", false}, {"other", "p1", false},
+		// intentions on the wildcard destination: they are part of every destination's match list, below the ones naming it
+		{"web.v1", "", true}, {"*", "", true}}
 	var actions []ixn
 	actions = append(actions, ixn{action: "allow"}, ixn{action: "deny"})
 	for i := range pm {
@@ -399,7 +422,10 @@ func Run(c *ev.Ctx) {
 					continue
 				}
 				x := a
-				x.src, x.peer = tuples[t].src, tuples[t].peer
+				x.src, x.peer, x.dstWild = tuples[t].src, tuples[t].peer, tuples[t].dstWild
+				if x.dstWild && x.action == "l7" {
+					continue // permissions need a destination with an http protocol; a wildcard destination carries allow / deny
+				}
 				rec(t+1, append(append([]ixn{}, cur...), x))
 			}
 		}
@@ -495,7 +521,7 @@ func Run(c *ev.Ctx) {
 	c.Set("evaluations", evals)
 	c.Set("distinct_nontrivial", len(programs))
 	c.Set("intention_sets", len(programs))
-	c.Set("rule", "programs = every set of <=K intentions on one destination over sources {web.v1, a+b, *} local and {web.v1, other} from peer p1, actions allow/deny/L7 permission lists (path exact/prefix/regex, methods, header present/exact+invert), x TCP/HTTP x both defaults x with/without the peer trust bundle; each translated by the real makeRBACRules and evaluated by an independent Envoy RBAC evaluator for every caller identity (mentioned names, fresh, regex near-misses webxv1/aab/ab, foreign trust domain, peered via gateway+XFCC, forged XFCC) and for HTTP every request in {5 paths}x{GET,POST}x{x-test absent,v,w}")
+	c.Set("rule", "programs = every set of <=K intentions applying to one destination (naming it, or naming the wildcard destination: sources web.v1 and *) over sources {web.v1, a+b, *} local and {web.v1, other} from peer p1, actions allow/deny/L7 permission lists (path exact/prefix/regex, methods, header present/exact+invert), x TCP/HTTP x both defaults x with/without the peer trust bundle; each translated by the real makeRBACRules and evaluated by an independent Envoy RBAC evaluator for every caller identity (mentioned names, fresh, regex near-misses webxv1/aab/ab, foreign trust domain, peered via gateway+XFCC, forged XFCC) and for HTTP every request in {5 paths}x{GET,POST}x{x-test absent,v,w}")
 	c.Sample(map[string]any{"example_program": fmt.Sprint(programs[len(programs)/2]), "callers": len(callers(true, true))})
 	c.Assume("the evaluator implements Envoy's documented RBAC semantics (policy = any principal AND any permission; safe_regex is a full match; Go's RE2 dialect equals Envoy's)")
 }
